@@ -14,7 +14,7 @@ ASSUMPTIONS = [
     "attribute deletion through a link is not part of the statement and is not generated",
 ]
 GATES = ["mon.C20.shadow", "mon.C20.structure", "C20.link_to_link", "C20.link_other_tree", "C20.ctor_kwargs", "C20.ctor_kwargs_on_link_target", "C20.write_via_link", "C20.write_via_target",
-         "C20.missing_attr_raises", "C20.struct_on_link", "C20.struct_on_target", "C20.veto"]
+         "C20.missing_attr_raises", "C20.struct_on_link", "C20.struct_on_target", "C20.veto", "C20.falsy_target"]
 
 NAMES = ["foo", "bar", "baz", "x1", "value_", "lng", "k9", "_p", "__q", "name", "été", "data"]
 
@@ -45,9 +45,18 @@ class Hist:
     def add_plain(self):
         F = self.F
         i = len(self.nodes)
-        if self.rng.random() < 0.5:
+        r = self.rng.random()
+        if r < 0.4:
             n = F.HNode("p%d" % i)
             self.shadow[i] = {"name": "p%d" % i}
+        elif r < 0.55:
+            n = F.FalsyNode("p%d" % i)  # a target that is falsy (defines __bool__/__len__) is still a target
+            self.shadow[i] = {"name": "p%d" % i}
+            self.ctx.count("C20.falsy_target")
+        elif r < 0.7:
+            n = F.FalsyAny(name="p%d" % i)  # falsy while it has no children
+            self.shadow[i] = {"name": "p%d" % i}
+            self.ctx.count("C20.falsy_target")
         else:
             # a name keeps Node.__repr__ (used in LoopError messages of mixed trees) working
             n = F.HAny(name="p%d" % i)
@@ -112,7 +121,7 @@ class Hist:
             fin = self.final(i)
             sh = self.shadow[fin]
             if i in self.target_of:
-                own = set(vars(n)) - {"target", "_NodeMixin__parent", "_NodeMixin__children"}
+                own = set(vars(n)) & set(NAMES)  # private bookkeeping of the library may live there, user attributes may not
                 if own:
                     ctx.violation("C20/link-dict-gained/%s" % type(n).__name__, "shadow-store", self.case(), expected="link __dict__ holds only target and bookkeeping",
                                   observed={"link": i, "names": sorted(own)})
@@ -248,7 +257,7 @@ def run(ctx):
         ctx.case(("directed", depth))
         ctx.count("mon.C20.shadow")
         case = {"directed": "SymlinkNode(<link chain of depth %d>, baz=18); chain[1].baz = 9" % depth}
-        bad = [i for i, c in enumerate(chain[1:] + [link]) if set(vars(c)) - {"target", "_NodeMixin__parent", "_NodeMixin__children"}]
+        bad = [i for i, c in enumerate(chain[1:] + [link]) if "baz" in vars(c)]
         if bad or getattr(t, "baz", None) != 18:
             ctx.violation("C20/ctor-kwargs/depth%d" % min(depth, 1), "shadow-store", case, expected="baz stored on the final target only", observed={"links_with_own_attrs": bad, "target_has": getattr(t, "baz", None)})
             continue
